@@ -918,6 +918,11 @@ class FuncVerifier:
                 if node.slice.upper is None:
                     return SV(P.slice_from(base.term, coerce(self.ev(node.slice.lower, st, spec), INT).term), bt)
                 hi2 = z3.If(hi < lo, lo, hi)
+                if not self.binders and not spec:
+                    # the clamped bounds contain if-then-else: name them, so that the slice can occur in quantifier patterns
+                    lo = self.pattern_safe(st, SV(lo, INT)).term
+                    hi2 = self.pattern_safe(st, SV(hi2, INT)).term
+                    self.note_term(st, P.drop(P.take(base.term, hi2), lo))
                 return SV(P.drop(P.take(base.term, hi2), lo), bt)
             i = self.norm_index(base.term, node.slice, st, spec)
             self.safety(st, 'index', z3.And(0 <= i, i < P.slen(base.term)), node, spec)
